@@ -1,0 +1,26 @@
+//go:build verif
+
+package jschema
+
+// Contracts for govc (see /verif/DESIGN.md). Comment-only file.
+
+// C11: "once-only load/compile with cached error": whatever a call returns is
+// what the once-cell holds, so every later call returns the same verdict.
+// The phases themselves (loader, checker) are NOT verified here: they are
+// treated as arbitrary code (they may change any state and may panic).
+
+//@ func (*Schema).load()
+//@   props C11
+//@   requires s != nil
+//@   maypanic
+//@   modifies *
+//@   ensures normal ==> s.loadOnce.once.fired && result == s.loadOnce.err
+//@   ensures normal && old(s.loadOnce.once.fired) ==> result == old(s.loadOnce.err)
+
+//@ func (*Schema).compile()
+//@   props C11
+//@   requires s != nil
+//@   maypanic
+//@   modifies *
+//@   ensures normal ==> s.compileOnce.once.fired && result == s.compileOnce.err
+//@   ensures normal && old(s.compileOnce.once.fired) ==> result == old(s.compileOnce.err)
